@@ -44,6 +44,8 @@ INFO = {
 
 NOTES = {
     'C16_2': 'confirmed against the tree as it was when the change was written (demo failed with the change); after the repair 4298818 (values must be representable in the option\'s type) the change no longer breaks the property: its own demo passes with the change applied (confirm.json), and the check correctly stays silent',
+    'C13_1': 'patch.diff is the author\'s change rebased by hand onto the repaired backup.cpp (repairs e348f26, bd86278 and the md5_str_in overflow fix); patch.orig.diff is the original; re-confirmed on the repaired tree',
+    'C14_2': 'patch.diff is the author\'s change rebased by hand onto the repaired backup.cpp; patch.orig.diff is the original; re-confirmed on the repaired tree',
     'C16_1': 'patch.diff is the author\'s change rebased by hand onto the repaired read_number(); patch.orig.diff is the original',
 }
 
